@@ -985,6 +985,16 @@ pub fn execute(case: &Case, record_seed: Option<u64>) -> Outcome {
     let g = guarded(|| {
         let reader = SimReader::new(bytes.clone(), allow_hard, allow_early);
         let mut dec = YamlDecoder::read(reader);
+        // call history on the builder: the trap may be configured several times, the last
+        // setting is the one that counts
+        for _ in 0..clock::choose(3) {
+            dec.encoding_trap(match clock::choose(4) {
+                0 => YAMLDecodingTrap::Ignore,
+                1 => YAMLDecodingTrap::Replace,
+                2 => YAMLDecodingTrap::Call(sim_trap),
+                _ => YAMLDecodingTrap::Strict,
+            });
+        }
         dec.encoding_trap(trap);
         let first = match dec.decode() {
             Ok(docs) => Res::Docs(format!("{docs:?}")),
